@@ -332,7 +332,7 @@ def fix_job(job):
     code, lines = job
     text = "\n".join(lines) + ("\n" if len(lines) % 2 else "")
     steps = []
-    final_out, error = None, None
+    final_out, final_desc, error = None, None, None
     with contextlib.redirect_stderr(io.StringIO()):
         for _ in range(7):
             r = lines_impl.run_case(text, dict(FIX_CFG, apply=True))
@@ -340,16 +340,17 @@ def fix_job(job):
                 error = r["error"]
                 break
             final_out = r["out"]
+            final_desc = r["desc"]
             new = r["new_text"]
             # check_for_test re-terminates every line: a missing final newline alone is not a change
             if new is None or new == "".join(l + "\n" for l in text.splitlines()):
                 break
-            steps.append({"text": text, "out": r["out"], "applied": r["applied"], "new": new})
+            steps.append({"text": text, "out": r["out"], "desc": r["desc"], "applied": r["applied"], "new": new})
             if not _parses(new):
                 final_out = None
                 break
             text = new
-    return {"code": code, "steps": steps, "final_out": final_out, "error": error, "text0": "\n".join(lines)}
+    return {"code": code, "steps": steps, "final_out": final_out, "final_desc": final_desc, "error": error, "text0": "\n".join(lines)}
 
 
 def _parses(t):
@@ -600,16 +601,21 @@ def run(tier: str, replay: str | None = None):
             if not _parses(new):
                 problems.append("result does not parse")
             else:
-                after = r["steps"][si + 1]["out"] if si + 1 < len(r["steps"]) else r["final_out"]
+                nxt = r["steps"][si + 1] if si + 1 < len(r["steps"]) else {"out": r["final_out"], "desc": r["final_desc"]}
+                after = nxt["out"]
                 if after is None:
                     problems.append("re-check failed: " + str(r["error"])[:200])
                 else:
-                    cb, ca = collections.Counter(d[0] for d in before), collections.Counter(d[0] for d in after)
-                    if ca[code] >= cb[code]:
-                        problems.append(f"the proposing diagnostic is still reported: {after[:4]}")
-                    extra = ca - cb
+                    # a diagnostic is identified by its code and its message (positions move with the edit)
+                    cb = collections.Counter((d[0], m) for d, m in zip(before, stp["desc"]))
+                    ca = collections.Counter((d[0], m) for d, m in zip(after, nxt["desc"]))
+                    prop = (before[0][0], stp["desc"][0])
+                    if ca[prop] >= cb[prop]:
+                        problems.append(f"the proposing diagnostic is still reported: {prop}")
+                    # nothing new may appear, except that removing dead code can make further variables unused
+                    extra = {k: v for k, v in (ca - cb).items() if not (code == "unused_variable" and k[0] == "unused_variable")}
                     if extra:
-                        problems.append(f"new diagnostics after the fix: {dict(extra)}")
+                        problems.append(f"new diagnostics after the fix: {sorted(extra)}")
                 want = behaviour(intended_text(code, text))
                 got = behaviour(new)
                 if got != want:
